@@ -199,9 +199,9 @@ type CellIDSnapper struct {
 
 // NewCellIDSnapper returns a snap function with the default level set.
 func NewCellIDSnapper() CellIDSnapper {
-	return CellIDSnapper{
-		level: MaxLevel,
-	}
+	// Use the constructor that also sets the snap radius belonging to the
+	// level; a zero snapRadius would claim that SnapPoint moves nothing.
+	return CellIDSnapperForLevel(MaxLevel)
 }
 
 // CellIDSnapperForLevel returns a snap function at the given level.
